@@ -61,6 +61,21 @@ pub mod effectlog {
         lemma_ext_trans(a, b, c);
         assert forall|i: int| 0 <= i < j implies #[trigger] at(a, c, i) == at(a, b, i) by { assert(c[a.len() + i] == b[a.len() + i]); }
     }
+    /// a stretch of the log without any effect of kind `k` leaves the count of `k` unchanged
+    pub proof fn lemma_cnt_region(a: Seq<Effect>, b: Seq<Effect>, k: Kind)
+        requires ext(a, b), forall|i: int| a.len() <= i < b.len() ==> kind_of(#[trigger] b[i]) != k,
+        ensures cnt(b, k) == cnt(a, k),
+        decreases b.len() - a.len(),
+    {
+        if b.len() > a.len() {
+            let c = b.drop_last();
+            assert(ext(a, c)) by { assert forall|i: int| 0 <= i < a.len() implies #[trigger] c[i] == a[i] by { assert(b[i] == a[i]); } }
+            assert forall|i: int| a.len() <= i < c.len() implies kind_of(#[trigger] c[i]) != k by { assert(c[i] == b[i]); }
+            lemma_cnt_region(a, c, k);
+        } else {
+            assert(a =~= b);
+        }
+    }
     pub broadcast group group_effectlog { lemma_cnt_push, lemma_grew_push, lemma_ext_refl, lemma_grew_zero, lemma_ext_trans, lemma_grew_trans }
     }
 }
